@@ -131,7 +131,21 @@ class _Events(ast.NodeVisitor):
         if self.marks:
             self.ev.append("yield")
 
+    @staticmethod
+    def _is_logging(func: ast.AST) -> bool:
+        """`logger.info(..)`, `self._logger.debug(..)`, `logging.warning(..)`, `print(..)`, `warnings.warn(..)`: diagnostics are not
+        effects any model speaks about — adding or removing one must not move a proof obligation"""
+        if isinstance(func, ast.Name):
+            return func.id == "print"
+        if isinstance(func, ast.Attribute) and func.attr in ("debug", "info", "warning", "warn", "error", "exception", "critical", "log"):
+            base = func.value
+            name = base.attr if isinstance(base, ast.Attribute) else (base.id if isinstance(base, ast.Name) else "")
+            return "log" in name.lower() or name == "warnings"
+        return False
+
     def visit_Call(self, node: ast.Call):
+        if self._is_logging(node.func):
+            return          # (its arguments are not visited either: building a message is not an effect)
         if isinstance(node.func, ast.Attribute):
             self.visit(node.func.value)
         for a in node.args:
